@@ -857,5 +857,3 @@ REGRESSIONS = [
         {"multi": True, "nested": False, "items": [_txt("text", [], eol=False), _txt("ds_str", [u"d"])]},
     ], "faults": [{"kind": "truncate", "n": 17}, {"kind": "none"}, {"kind": "nonjson", "n": 2}, {"kind": "none"}]}),
 ]
-if os.environ.get("C11_NO_REG"):  # TEMPORARY (sensitivity session only)
-    REGRESSIONS = []
